@@ -6,7 +6,8 @@ Transaction token `<e|o><payer>.<nonce>.<price>.<salt>` (`e` = EIP-155, `o` = ot
 code of the token. Ops: `s:<tx>:<lag>` submit (stateful check at `tip-lag`, then AddTxList), `c:<tx>,<tx>…|-` commit,
 `n:<k>` validator.AddBlock(chain[k]), `k:<k>` pool.CleanCompleted(chain[k]), `g:<byCount>:<height>:<max>` GetTxPool,
 `p:<byCount>:<height>:<max>` proposer, `r` Remain, `b:<price>` RemoveTxsBelowGasPrice, `v` validator.Clean,
-`y:<tx>:<start>` one IncrementValidator.Verify(tx, start, fresh context).
+`y:<tx>:<start>` one IncrementValidator.Verify(tx, start, fresh context), `x:<height>` CleanStaledEIPTx, `q:<payer>` NextNonce,
+`f:<n>:<base>` submit n other-type transactions `o0.0.<base+i>.0` (to cross the 10000 threshold of CleanStaledEIPTx).
 Output: per-op results joined by `|`, then ` # pool=<sorted tokens> range=[b,e)`. -/
 namespace OntVerif.Driver.C35
 open OntVerif.Util OntVerif.Model.TxPool
@@ -91,6 +92,21 @@ def stepOp (s : Sys) (op : String) : Option (Sys × String) :=
       | some p => ({ s with pool := p }, "-")
       | none => (s, "PANIC")
   | ["v"] => some ({ s with val := s.val.clean }, "-")
+  | ["x", h] => h.toNat?.map fun h => ({ s with pool := cleanStaled s.pool h }, "-")
+  | ["q", a] => a.toNat?.map fun a => (s, match nextNonce s.pool a with | some n => toString n | none => "PANIC")
+  | ["f", n, base] =>
+    match n.toNat?, base.toNat? with
+    | some n, some base =>
+      let rec fill (s : Sys) (k i ok : Nat) : Sys × Nat :=
+        match k with
+        | 0 => (s, ok)
+        | k + 1 =>
+          let t : Tx := ⟨mkHash false 0 0 (base + i) 0, false, 0, 0, base + i⟩
+          let (r, s') := s.submit t 0
+          fill s' k (i + 1) (match r with | .pool .ok _ => ok + 1 | _ => ok)
+      let (s', ok) := fill s n 0 0
+      some (s', s!"ok{ok}")
+    | _, _ => none
   | ["y", t, st] =>
     match parseTx t, st.toNat? with
     | some t, some st =>
@@ -102,7 +118,9 @@ def stepOp (s : Sys) (op : String) : Option (Sys × String) :=
 
 def runOps (s : Sys) : List String → List String → String
   | [], acc =>
-    String.intercalate "|" acc.reverse ++ " # pool=" ++ sortedToks (s.pool.valid.map (·.2.tx))
+    let ts := s.pool.valid.map (·.2.tx)
+    String.intercalate "|" acc.reverse ++ " # pool=" ++
+      (if ts.length > 300 then s!"#{ts.length}:" ++ sortedToks (ts.filter (·.eip)) else sortedToks ts)
       ++ s!" range=[{s.val.range.1},{s.val.range.2})"
   | op :: r, acc =>
     match stepOp s op with
